@@ -7,6 +7,8 @@
    are carried between chunks as (bytes still needed, code point bits so far, bounds for the next byte);
    the bounds implement the overlong / surrogate / > U+10FFFF exclusions. fatal: an invalid byte is an
    error (TypeError); ignoreBOM: a leading U+FEFF is delivered like any other character.
+   The bit operations of the standard's wording are written arithmetically: for a lead byte b of an n-byte sequence
+   b & mask = b - (the lead's fixed high bits), for a continuation byte b & 0x3F = b - 128, (cp << 6) | x = cp * 64 + x.
    Also: the encoder, the sequence length of a lead byte and a declarative whole-input decoder by sequences.
    NO proofs here (Utf8_Proofs.v). *)
 From RBQL Require Import Base.
@@ -38,18 +40,18 @@ Definition decode_byte (st : dstate) (b : byte) : option (option ch * dstate) :=
   | O =>
       match utf8_len b with
       | 1%nat => Some (Some b, d_init)
-      | 2%nat => Some (None, {| d_needed := 1; d_cp := N.land b 31; d_lower := 128; d_upper := 191 |})
-      | 3%nat => Some (None, {| d_needed := 2; d_cp := N.land b 15;
+      | 2%nat => Some (None, {| d_needed := 1; d_cp := (b - 192)%N; d_lower := 128; d_upper := 191 |})
+      | 3%nat => Some (None, {| d_needed := 2; d_cp := (b - 224)%N;
                                  d_lower := if N.eqb b 224 then 160 else 128;
                                  d_upper := if N.eqb b 237 then 159 else 191 |})
-      | 4%nat => Some (None, {| d_needed := 3; d_cp := N.land b 7;
+      | 4%nat => Some (None, {| d_needed := 3; d_cp := (b - 240)%N;
                                  d_lower := if N.eqb b 240 then 144 else 128;
                                  d_upper := if N.eqb b 244 then 143 else 191 |})
       | _ => None
       end
   | S k =>
       if (d_lower st <=? b)%N && (b <=? d_upper st)%N then
-        let cp := N.lor (N.shiftl (d_cp st) 6) (N.land b 63) in
+        let cp := (d_cp st * 64 + (b - 128))%N in
         match k with
         | O => Some (Some cp, d_init)
         | _ => Some (None, {| d_needed := k; d_cp := cp; d_lower := 128; d_upper := 191 |})
@@ -116,9 +118,9 @@ Definition is_scalar (c : ch) : bool := ((c <? 55296) || (57343 <? c))%N && (c <
 
 Definition utf8_encode_char (c : ch) : bytes :=
   if (c <? 128)%N then [c]
-  else if (c <? 2048)%N then [192 + N.shiftr c 6; 128 + N.land c 63]%N
-  else if (c <? 65536)%N then [224 + N.shiftr c 12; 128 + N.land (N.shiftr c 6) 63; 128 + N.land c 63]%N
-  else [240 + N.shiftr c 18; 128 + N.land (N.shiftr c 12) 63; 128 + N.land (N.shiftr c 6) 63; 128 + N.land c 63]%N.
+  else if (c <? 2048)%N then [192 + c / 64; 128 + c mod 64]%N
+  else if (c <? 65536)%N then [224 + c / 4096; 128 + (c / 64) mod 64; 128 + c mod 64]%N
+  else [240 + c / 262144; 128 + (c / 4096) mod 64; 128 + (c / 64) mod 64; 128 + c mod 64]%N.
 
 Definition utf8_encode (s : str) : bytes := flat_map utf8_encode_char s.
 
@@ -135,14 +137,14 @@ Fixpoint decode_seq (fuel : nat) (bs : bytes) : option str :=
           match utf8_len b0, r with
           | 1%nat, _ => option_map (cons b0) (decode_seq f r)
           | 2%nat, b1 :: r' =>
-              if is_cont b1 then option_map (cons (N.lor (N.shiftl (N.land b0 31) 6) (N.land b1 63))) (decode_seq f r') else None
+              if is_cont b1 then option_map (cons ((b0 - 192) * 64 + (b1 - 128))%N) (decode_seq f r') else None
           | 3%nat, b1 :: b2 :: r' =>
               if ((if N.eqb b0 224 then 160 else 128) <=? b1)%N && (b1 <=? (if N.eqb b0 237 then 159 else 191))%N && is_cont b2
-              then option_map (cons (N.lor (N.shiftl (N.lor (N.shiftl (N.land b0 15) 6) (N.land b1 63)) 6) (N.land b2 63))) (decode_seq f r')
+              then option_map (cons (((b0 - 224) * 64 + (b1 - 128)) * 64 + (b2 - 128))%N) (decode_seq f r')
               else None
           | 4%nat, b1 :: b2 :: b3 :: r' =>
               if ((if N.eqb b0 240 then 144 else 128) <=? b1)%N && (b1 <=? (if N.eqb b0 244 then 143 else 191))%N && is_cont b2 && is_cont b3
-              then option_map (cons (N.lor (N.shiftl (N.lor (N.shiftl (N.lor (N.shiftl (N.land b0 7) 6) (N.land b1 63)) 6) (N.land b2 63)) 6) (N.land b3 63)))
+              then option_map (cons ((((b0 - 240) * 64 + (b1 - 128)) * 64 + (b2 - 128)) * 64 + (b3 - 128))%N)
                               (decode_seq f r')
               else None
           | _, _ => None
